@@ -7,7 +7,13 @@ open CifModel Model.Writer Model.Lexer Spec.Lexical Lemmas.WriterChunks
 
 /-- The equivalence of `C02_roundtrip_doc` / `C13_roundtrip` (`backBlock` → `backLoop` → `backVs` → `backV`) accepts ANY unquoted
     string coming back quoted — not only one that begins with `;` (the property's exception).  Evidence: -/
-example : backV (.chr false (a!"abc")) (.chr true (a!"abc")) := ⟨true, rfl, fun h => by cases h⟩
+-- (closed by gE after the review: `backV` now carries the writer's own test `bareWritable`; the example is refuted)
+example : ¬ backV (.chr false (a!"abc")) (.chr true (a!"abc")) := by
+  rintro ⟨q', h1, _, h3⟩
+  injection h1 with hq _
+  have := h3 rfl ⟨by decide, by decide, by decide⟩
+  rw [← hq] at this
+  cases this
 /-- … whereas the property's relation (`C02_quotedRel`, Props/C02.lean:448, used by no theorem) does not -/
 example : ¬ C02_quotedRel false (a!"abc") true := by
   intro h; rcases h with h | ⟨_, h, _⟩
